@@ -11,7 +11,7 @@ PROP = 'C05'
 TIMEOUT = 240
 BATCHES = {
     'quick': [('F0', 2600), ('FI', 1600), ('M', 260)],
-    'thorough': [('F0', 160000), ('FI', 100000), ('M', 12000)],
+    'thorough': [('F0', 90000), ('FI', 50000), ('M', 7000)],
 }
 CHUNK = {'F0': 40, 'FI': 40, 'M': 6}
 COST = {'F0': 1, 'FI': 1, 'M': 5}
